@@ -38,7 +38,7 @@ from common import short
 from gen import refactor_gen, refactor_shapes, refactor_flow
 from props.c07 import dump_tree, load_own_known, split_keepends, sandbox_quirk
 
-MODELS = ['Refactor', 'Tree']
+MODELS = ['Refactor', 'Tree', 'ExtractIO']
 MANIFEST = dict(
     text='Theorems over the model of refactoring.inline and extract._replace: inline either refuses (messages '
          'identical to the source, translator-checked) or rewrites only the references, the defining statement and '
@@ -49,14 +49,21 @@ MANIFEST = dict(
          'counter-example replayed on the real code = F7/F8 and relatives; none for the fixed shape, where the FULL '
          'soundness theorem holds; a general theorem shows every rule at least as strong as the proposed fix is '
          'sound); _replace inserts the extracted line into the prefix, keeps every other byte, and keeps the whole '
-         'prefix of the replaced expression. Tie: translator + correspondence (table rows through the real inline '
-         'and through CPython ast; captured inline/_replace calls on generated programs). Compiles-or-refuses, '
-         'behavioural equivalence and the extract->inline round trip are checked by compiling and executing '
-         'generated programs (a test, labelled as such); failures of known root causes are recognised by an '
-         'explicit syntactic rule per root cause (harness/gen/refactor_shapes.py), anything else is a VIOLATION.',
-    note='Modelled not verified: which names get_references returns, _find_nodes (selection normalisation) and '
-         "extract_function's input/output analysis are oracle-checked only; CPython's parser is the judge of "
-         'the precedence table.',
+         'prefix of the replaced expression; the loop of extract._find_inputs_and_outputs (which names of a '
+         'statement selection become parameters; loop shape translator-checked, original and fixed shape accepted) '
+         'is complete, sound and duplicate-free relative to the per-occurrence verdict of the real lookup: every '
+         'read whose lookup leaves the selection yields a parameter whatever earlier occurrences of the name '
+         'resolved to (kernel-checked witness that a look-up-once loop is not). Tie: translator + correspondence '
+         '(table rows through the real inline and through CPython ast; captured inline / _replace / '
+         '_find_inputs_and_outputs calls on generated programs). Compiles-or-refuses, behavioural equivalence and '
+         'the extract->inline round trip are checked by compiling and executing generated programs (a test, '
+         'labelled as such), for statement ranges on function bodies with control flow by calling the function of '
+         'the old and the new program on argument tuples drawn until every line of the selection ran; failures of '
+         'known root causes are recognised by an explicit rule per root cause (harness/gen/refactor_shapes.py, '
+         'harness/gen/refactor_flow.py), anything else is a VIOLATION.',
+    note='Modelled not verified: which names get_references returns, _find_nodes (selection normalisation), the '
+         "lookup verdicts (context.goto, flow analysis) and the output analysis of extract_function are "
+         "oracle-checked only; CPython's parser is the judge of the precedence table.",
     technique='Lean 4 proof over hand-written model + translator-generated constants + differential '
               'correspondence + execution oracle',
     design='5.C06')
@@ -202,13 +209,14 @@ class Capture:
     def __init__(self):
         self.inline_names = None
         self.replace_calls = []
+        self.inputs_calls = []      # (request for the Lean model, what the real function returned)
 
     def __enter__(self):
         from jedi.api import refactoring
         from jedi.api.refactoring import extract
         import jedi.api as api
         self.mods = (refactoring, extract)
-        self.orig = (refactoring.inline, extract._replace)
+        self.orig = (refactoring.inline, extract._replace, extract._find_inputs_and_outputs)
         cap = self
 
         def inline(inference_state, names):
@@ -221,12 +229,44 @@ class Capture:
             cap.replace_calls.append((list(nodes), expression_replacement, extracted, insert_before_leaf,
                                       remaining_prefix, dict(res)))
             return res
+        def _find_inputs_and_outputs(module_context, context, nodes):
+            res = cap.orig[2](module_context, context, nodes)
+            try:
+                cap.inputs_calls.append(inputs_request(module_context, context, nodes, res))
+            except Exception as e:      # the verdicts use the same inference as the call itself
+                if not sandbox_quirk(e):
+                    raise
+            return res
         refactoring.inline = inline
         extract._replace = _replace
+        extract._find_inputs_and_outputs = _find_inputs_and_outputs
         return self
 
     def __exit__(self, *a):
-        self.mods[0].inline, self.mods[1]._replace = self.orig
+        self.mods[0].inline, self.mods[1]._replace, self.mods[1]._find_inputs_and_outputs = self.orig
+
+
+def inputs_request(module_context, context, nodes, result):
+    """the name leaves of the selection as `_find_inputs_and_outputs` walks them, each with the verdict of the
+    REAL lookup of that occurrence (asked for every read, also those the loop of the source skips)"""
+    from jedi.api.refactoring import extract
+    first, last = nodes[0].start_pos, nodes[-1].end_pos
+    occs = []
+    for name in extract._find_non_global_names(nodes):
+        is_def = name.is_definition()
+        aug = False
+        if is_def:
+            d = name.get_definition()
+            aug = d is not None and d.type == 'expr_stmt' and d.children[1].type == 'operator' \
+                and d.children[1].value != '='
+        outer = False
+        if not is_def or aug:
+            pos = extract._get_lookup_position(name) if hasattr(extract, '_get_lookup_position') \
+                else name.start_pos
+            defs = context.goto(name, pos)
+            outer = (not defs) or bool(extract._is_name_input(module_context, defs, first, last))
+        occs.append({'value': name.value, 'is_def': bool(is_def), 'aug': bool(aug), 'outer': bool(outer)})
+    return {'op': 'inputs', 'occs': occs}, {'inputs': list(result[0]), 'outputs': list(result[1])}
 
 
 def _is_dstar(node):
@@ -546,6 +586,9 @@ def stream_programs(ctx, reqs, pending):
                     req, impl = replace_request(call, script._module_node)
                     reqs.append(req)
                     pending.append(('replace', case, impl))
+            for req, impl in cap.inputs_calls:
+                reqs.append(req)
+                pending.append(('inputs', case, impl))
             if err is not None:
                 ctx.count('oracle-compile', key, nontrivial=False, bucket=kind + '/refused')
                 continue
@@ -665,8 +708,9 @@ def flow_judge(ctx, r):
                            'new_code': r['new_code']})
 
 
-def flow_one(src, entry, sel, args):
-    """the property on one given (program, selection, argument tuples), in-process"""
+def flow_one(src, entry, sel, args, sink=None):
+    """the property on one given (program, selection, argument tuples), in-process; sink = (reqs, pending):
+    the captured `_find_inputs_and_outputs` call goes to the Lean correspondence"""
     sel = dict(sel)
     full = [x for x in refactor_flow.selections(src)
             if x['start'] == list(sel['start']) and x['until'] == list(sel['until'])]
@@ -685,7 +729,13 @@ def flow_one(src, entry, sel, args):
     for _o, lines in runs:
         covered |= lines & need
     e = {'entry': entry, 'name': fname}
-    res = refactor_flow.check_selection(src, e, sel, args, runs)
+    with Capture() as cap:
+        res = refactor_flow.check_selection(src, e, sel, args, runs)
+    if sink is not None:
+        case = flow_case(src, entry, sel, args, ['flow'])
+        for req, impl in cap.inputs_calls:
+            sink[0].append(req)
+            sink[1].append(('inputs', case, impl))
     res.update({'rec': 'case', 'entry': entry, 'sel': sel, 'covered': len(covered), 'need': len(need),
                 'old_raises': sum(1 for (o, l_) in runs if o[0] != 'ok' or refactor_flow.exception_leaves(l_, sel)),
                 'nargs': len(args), 'source': src,
@@ -693,7 +743,21 @@ def flow_one(src, entry, sel, args):
     return res
 
 
-def flow_corpus(ctx):
+def flow_in_process(ctx, sink):
+    """a few generated flow programs in-process: their `_find_inputs_and_outputs` calls feed the Lean
+    correspondence (the bulk of the flow stream runs in workers, oracle only)"""
+    rng = ctx.subrng('flow-in-process')
+    for _ in range(ctx.size(10, 150)):
+        src, entries = refactor_gen.gen_flow_program(rng)
+        sels = refactor_flow.selections(src)
+        for entry in entries:
+            mine = [x for x in sels if x['func'] == entry['name']]
+            args = refactor_gen.flow_arguments(rng, entry, 8)
+            for sel in refactor_flow.pick_selections(rng, mine, 4):
+                flow_judge(ctx, flow_one(src, entry['entry'], sel, args, sink))
+
+
+def flow_corpus(ctx, sink=None):
     """corpus/C06/*.json: minimised past failures (one per root cause + the seeded classes), run first"""
     import glob
     for path in sorted(glob.glob(os.path.join(CORPUS_DIR, '*.json'))):
@@ -701,7 +765,8 @@ def flow_corpus(ctx):
             c = json.load(f)
         if c.get('stream') != 'flow':
             continue
-        flow_judge(ctx, flow_one(c['source'], c['entry'], {'start': c['start'], 'until': c['until']}, c['args']))
+        flow_judge(ctx, flow_one(c['source'], c['entry'], {'start': c['start'], 'until': c['until']}, c['args'],
+                                 sink))
 
 
 class FlowJob:
@@ -819,6 +884,14 @@ def compare(ctx, reqs, pending, answers):
             model = {'error': ans['error']} if 'error' in ans else {'map': sorted(ans['map'])}
             ctx.count('inline', key, nontrivial='map' in model,
                       bucket='ok' if 'map' in model else model['error'][:40])
+        elif kind == 'inputs':
+            model = ans if 'error' in ans else {'inputs': ans['inputs'], 'outputs': ans['outputs']}
+            reads = [o for o in req['occs'] if not o['is_def'] or o['aug']]
+            names = {o['value'] for o in reads}
+            mixed = any(len({o['outer'] for o in reads if o['value'] == n}) > 1 for n in names)
+            ctx.count('inputs', key, nontrivial=any(o['outer'] for o in reads),
+                      bucket='verdicts-of-one-name-differ' if mixed else 'aug-target' if
+                      any(o['aug'] for o in req['occs']) else 'plain')
         else:
             if 'error' in ans:
                 model = ans
@@ -836,7 +909,8 @@ def run(ctx):
     job = FlowJob(ctx)
     t0 = time.time()
     fixed_probes(ctx)
-    flow_corpus(ctx)
+    flow_corpus(ctx, (reqs, pending))
+    flow_in_process(ctx, (reqs, pending))
     stream_programs(ctx, reqs, pending)
     ctx.notes.append('in-process streams (probes, corpus, generated programs): %.0f s' % (time.time() - t0))
     job.finish(ctx)
@@ -852,7 +926,11 @@ def run(ctx):
         'parenthesised substitution) on every run; rows outside the table (f-strings, await, yield, walrus, '
         'decorators) are not covered',
         'get_references decides which names `inline` receives; the model starts from those names (captured)',
-        '_find_nodes / extract_function input-output analysis are not modelled: compile + execution oracle only',
+        '_find_nodes is not modelled: compile + execution oracle only',
+        'extract_function input analysis: the loop of _find_inputs_and_outputs is modelled and proved complete / sound / '
+        'duplicate-free relative to the per-occurrence verdict of the real lookup (context.goto + _is_name_input, flow '
+        'analysis), which is not modelled; whether those verdicts and the output analysis '
+        '(_find_needed_output_variables) are right is decided by the execution oracle of the flow stream only',
         'behaviour = final module globals of deterministic, builtin-free, exception-free generated programs; for '
         'the flow stream: the return value of the entry function on every drawn argument tuple',
     ]
